@@ -9,7 +9,7 @@ using jm::JVal;
 using namespace sonic_json;
 
 static vf::Counter c_lit("literals-judged"), c_ok("literal:well-formed"), c_bad("literal:malformed"), c_val("role:value"), c_key("role:dom-key"),
-    c_od("role:on-demand-key"), c_od_err("on-demand:malformed-key-reported-error"), c_od_raw("on-demand:malformed-key-lookup-reported-success"),
+    c_od("role:on-demand-key"), c_od_rawname("role:on-demand-lookup-by-undecoded-spelling-of-an-escaped-key"), c_od_err("on-demand:malformed-key-reported-error"), c_od_raw("on-demand:malformed-key-lookup-reported-success"),
     c_sur_ok("surrogate:valid-pair"), c_sur_bad("surrogate:pairing-fault");
 
 struct Exact {
@@ -102,6 +102,21 @@ static void judge_literal(const std::string& raw, size_t pad, const char* family
           vf::violation("key-not-found-by-decoded-name", vf::printable(lit, 120));
       }
     }
+  }
+  // ---- role 3b: on-demand lookup by the UNDECODED spelling of an escaped key: no member has that name
+  if (wf && raw != expect && raw != "zz" && raw.find('\\') != std::string::npos) {
+    std::string text = "{" + ws + "\"zz\":[0]," + lit + ":17 }";
+    vf::witness(text);
+    vf::eval();
+    c_od_rawname.add();
+    Exact b(text);
+    StringView target("sentinel");
+    JsonPointer path;
+    path.push_back(JsonPointerNode(raw));
+    ParseResult res = GetOnDemand(StringView(b.p, b.n), path, target);
+    if (res.Error() == kErrorNone)
+      vf::violation("on-demand-found-key-by-its-undecoded-spelling:" + len_class(raw.size()),
+                    std::string(family) + ": key literal " + vf::printable(lit, 120) + " looked up with the " + std::to_string(raw.size()) + " raw bytes between its quotes -> success");
   }
   // ---- role 3: on-demand key (the scanner works on the caller's unpadded buffer)
   {
@@ -268,6 +283,10 @@ int main(int argc, char** argv) {
                    judge_literal(u_escape(s, (int)r.below(3)), r.below(32), "lone-low");
                    judge_literal(filler(r.range(1, 40), r) + u_escape(s, 0) + filler(r.range(0, 40), r), r.below(32), "lone-low");
                    judge_literal(u_escape(s, 0) + u_escape(0xd800 + (uint32_t)r.below(1024), 0), r.below(32), "low+high(wrong order)");
+                   judge_literal(u_escape(s, 0) + u_escape(0xdc00 + (uint32_t)r.below(1024), (int)r.below(3)), r.below(32), "low+low");
+                   judge_literal(u_escape(s, 0) + u_escape(s, 0), r.below(32), "low+low");
+                   judge_literal(u_escape(s, 0) + u_escape(r.coin() ? 0xdc00 : 0xdfff, 0), r.below(32), "low+low");
+                   judge_literal(u_escape(s, 0) + u_escape((uint32_t)r.below(0xd800), 0), r.below(32), "low+bmp");
                  }
                }, false});
 
